@@ -599,7 +599,8 @@ def excluded_rules(ctx, F, rid):
         for o in fl.origins(gt['args'][0]):
             if o.kind == 'call' and o.key == 'std::iter::Iterator::next':
                 coll = [x for x in iterated_collection(fl, o.bb) if x.kind != 'comb']
-                if coll and not any(x.kind == 'param' for x in coll) and all(x.kind in ('call', 'agg') for x in coll):
+                stored = lambda x: x.kind == 'agg' or (x.kind == 'call' and str(x.key).split('::')[-1] in ('new', 'with_capacity', 'collect', 'from_iter', 'default', 'to_vec'))
+                if coll and not any(x.kind == 'param' for x in coll) and all(stored(x) for x in coll):
                     # the patterns were prepared ahead of the matching loop (trimmed / classified into a local collection): which
                     # matcher a pattern gets is then in the data, not in the control flow these rules read
                     ctx.undecided(rid, 'is_excluded matches patterns taken from a collection it prepared beforehand: the whole-path / per-component dispatch is not decided')
